@@ -5,6 +5,7 @@ import (
 	"bytes"
 	"context"
 	"fmt"
+	"os"
 	"os/exec"
 	"strings"
 	"sync"
@@ -30,6 +31,9 @@ var solvers = []solverSpec{
 		return []string{"cvc5", fmt.Sprintf("--tlimit=%d", s*1000), "--produce-models", f}
 	}},
 	{"z3", func(f string, s int) []string { return []string{"z3", fmt.Sprintf("-T:%d", s), f} }},
+	// nlsat front end for quantifier-free nonlinear real goals (the default smt
+	// core of z3 is much weaker on them); the variant file replaces (check-sat).
+	{"z3-nlsat", func(f string, s int) []string { return []string{"z3-new", fmt.Sprintf("-T:%d", s), f + ".nlsat"} }},
 }
 
 // Sem limits the number of concurrently running solver processes.
@@ -76,8 +80,22 @@ func Run(file string, timeout time.Duration, which string) Result {
 	ch := make(chan one, len(solvers))
 	var wg sync.WaitGroup
 	n := 0
+	nlsatOK := false
+	if data, err := os.ReadFile(file); err == nil {
+		txt := string(data)
+		if strings.Contains(txt, "Real") && !strings.Contains(txt, "(forall ") && !strings.Contains(txt, "(exists ") && !strings.Contains(txt, "FloatingPoint") {
+			txt = strings.Replace(txt, "(check-sat)", "(check-sat-using (then simplify solve-eqs elim-uncnstr qfnra-nlsat))", 1)
+			if os.WriteFile(file+".nlsat", []byte(txt), 0o644) == nil {
+				nlsatOK = true
+			}
+		}
+	}
+	defer os.Remove(file + ".nlsat")
 	for _, s := range solvers {
 		if which != "" && !strings.Contains(","+which+",", ","+s.name+",") {
+			continue
+		}
+		if s.name == "z3-nlsat" && !nlsatOK {
 			continue
 		}
 		n++
